@@ -53,6 +53,22 @@ func (x *Exec) modelTerms(vals []NamedVal, st map[*Object]*ObjState, mq *modelQu
 			if os, ok := st[t.Obj]; ok && !t.Obj.Array {
 				rec(name+"^", getPath(os.Val, t.Path), depth+1)
 			}
+		case *ArrayV:
+			if c, ok := t.Leaves[""]; ok {
+				for i := int64(0); i < t.T.Len() && i < modelCells; i++ {
+					mq.terms = append(mq.terms, x.Select(c, tb.BVi(64, i)))
+					mq.descr = append(mq.descr, fmt.Sprintf("%s#%d", name, i))
+				}
+			}
+		case *ArrayRef:
+			if os, ok := st[t.Obj]; ok {
+				if c, has := os.Leaves[""]; has {
+					for i := int64(0); i < t.T.Len() && i < modelCells; i++ {
+						mq.terms = append(mq.terms, x.Select(c, tb.BVi(64, i)))
+						mq.descr = append(mq.descr, fmt.Sprintf("%s#%d", name, i))
+					}
+				}
+			}
 		case *IfaceV:
 			mq.terms = append(mq.terms, t.Tag)
 			mq.descr = append(mq.descr, name+"#tag")
